@@ -13,12 +13,20 @@ def pushes(b):
         n = callee_name(t)
         if n.endswith("String::push_str"):
             a = strip_refs(b.call_args(bi, expand_vars=True)[1])
-            if a[0] == "const" and isinstance(a[1], str):
-                out.append((bi, a[1]))
-            else:
-                parts = sql.format_parts(a)
-                if parts:
-                    out.append((bi, "".join(x[1] if x[0] == "lit" else "{}" for x in parts)))
+            # a pushed value may be one of several texts (the result of a helper analysed inlined: `query.push_str(&offset)`)
+            while a[0] == "call" and a[2] and re.search(r"::(deref|as_str|as_ref|borrow)$", a[1]):
+                a = strip_refs(a[2][0])
+            alts = a[1] if a[0] == "phi" else [a]
+            for alt in alts:
+                alt = strip_refs(alt)
+                # one of several texts: the piece belongs to the block that built it (its guards decide when it is emitted)
+                at = alt[3] if len(alts) > 1 and alt[0] == "call" and len(alt) > 3 and isinstance(alt[3], int) else bi
+                if alt[0] == "const" and isinstance(alt[1], str):
+                    out.append((at, alt[1]))
+                else:
+                    parts = sql.format_parts(alt)
+                    if parts:
+                        out.append((at, "".join(x[1] if x[0] == "lit" else "{}" for x in parts)))
     return out
 
 
@@ -85,9 +93,12 @@ def run(P, C, tier):
                     if term[0] == "discr":
                         place = field_path(term[1])
                         table = dict(term[3])
+                        seen_names = {table.get(v) for tg, vals in rights.switch_edges(gl, x) for v in vals if v != "otherwise"}
                         for tg, vals in rights.switch_edges(gl, x):
                             names = {table.get(v, "otherwise") if v != "otherwise" else "otherwise" for v in vals}
                             some = True if names == {"Some"} else False if names == {"None"} else None
+                            if some is None and (gl.blocks[tg]["t"]["k"] == "unreachable" or (names == {"otherwise"} and set(table.values()) <= seen_names)):
+                                continue  # the `otherwise` edge of a match that names every variant
                             edges.append((tg, some))
                         if not all(e[1] is not None for e in edges) and len(edges) == 2 and any(e[1] is not None for e in edges):
                             known = [e for e in edges if e[1] is not None][0][1]
